@@ -60,13 +60,34 @@ def _innermost(e, cache, out, seen):
     seen.add(k)
     if z3.is_app(e):
         if e.decl().kind() == z3.Z3_OP_UNINTERPRETED and e.decl().name() in reals.TRANS_NAMES:
-            if not any(_has_trans(c, cache) for c in e.children()):
+            if not any(_has_trans(c, cache) for c in e.children()) and not _has_bound_var(e):
                 out[k] = e
                 return
         for c in e.children():
             _innermost(c, cache, out, seen)
     elif z3.is_quantifier(e):
         _innermost(e.body(), cache, out, seen)
+
+
+_BV = {}
+
+
+def _has_bound_var(e):
+    k = e.get_id()
+    if k in _BV:
+        return _BV[k]
+    if z3.is_var(e):
+        r = True
+    elif z3.is_app(e):
+        r = any(_has_bound_var(c) for c in e.children())
+    elif z3.is_quantifier(e):
+        r = _has_bound_var(e.body())
+    else:
+        r = False
+    if len(_BV) > 200000:
+        _BV.clear()
+    _BV[k] = r
+    return r
 
 
 _pur_counter = [0]
@@ -168,7 +189,10 @@ def _check_level(formulas, extra_axioms, level, timeout_ms, want_model, use_cvc5
     ax = reals.axioms_for(list(formulas) + list(extra_axioms), level=level)
     allf = list(formulas) + list(extra_axioms) + ax
     tc = {}
-    if any(_has_trans(f, tc) for f in allf):
+    had_trans = any(_has_trans(f, tc) for f in allf)
+    orig = None
+    if had_trans:
+        orig = list(allf)
         allf = purify(allf)
     if not _pure_nra(allf):
         # real abstraction: integer-valued real subterms (ToReal(..)) and applications of other
@@ -202,8 +226,25 @@ def _check_level(formulas, extra_axioms, level, timeout_ms, want_model, use_cvc5
         return Result("unknown", backend, time.time() - t0, detail="z3 exception: %s" % e)
     if r == z3.unsat:
         return Result("unsat", backend, time.time() - t0)
+    if r == z3.sat and had_trans and orig is not None:
+        # the purified problem lost the congruence of the transcendental symbols: before giving up, try the
+        # unpurified one (functions uninterpreted, ground axioms kept)
+        s2 = _mk_solver(max(1000, timeout_ms // 2), True)
+        for f in orig:
+            s2.add(f)
+        try:
+            if s2.check() == z3.unsat:
+                return Result("unsat", "z3(axioms-L%d,uninterpreted)" % level, time.time() - t0)
+        except z3.Z3Exception:
+            pass
     if r == z3.sat:
-        return Result("sat", backend, time.time() - t0, model=s.model() if want_model else None)
+        res = Result("sat", backend, time.time() - t0, model=s.model() if want_model else None)
+        if had_trans:
+            # transcendental functions were replaced by fresh constants / left uninterpreted up to ground axioms: a model
+            # of that abstraction is a candidate only (it must be confirmed by replaying it on the real code)
+            res.inexact = True
+            res.detail = "model of the abstraction in which transcendental functions are uninterpreted: candidate only"
+        return res
     detail = "z3: " + s.reason_unknown()
     if use_cvc5 and os.path.exists(CVC5):
         r2 = _cvc5(s, want_model)
